@@ -224,6 +224,7 @@ class Manager:
         self._executing_thread = None
         self._flushing_thread = None
         self._running = False
+        self._exit_code = None
         self.__thread = None
         self.__process = None
         self._lock = RLock()
@@ -645,7 +646,7 @@ class Manager:
             except KeyboardInterrupt:
                 self.stop()
             except SystemExit as e:
-                self.stop(e.code)
+                self._exit(e.code)
             except BaseException:
                 value = err = _exc_info()
                 event.value.errors = True
@@ -779,6 +780,20 @@ class Manager:
         if code is not None:
             raise SystemExit(code)
 
+    def _exit(self, code):
+        """
+        A handler raised SystemExit (directly or through ``stop(code)``).
+        Stop, but let the current flush finish so that ``stopped`` and
+        everything else queued is still dispatched; ``run()`` re-raises
+        the exit code once it has drained the queue.
+        """
+        try:
+            self.stop(code)
+        except SystemExit:
+            pass
+        if code is not None:
+            self._exit_code = code
+
     def processTask(self, event, task, parent=None):  # noqa
         # TODO: C901: This has a high McCabe complexity score of 16.
         # TODO: Refactor this method.
@@ -851,7 +866,7 @@ class Manager:
         except KeyboardInterrupt:
             self.stop()
         except SystemExit as e:
-            self.stop(e.code)
+            self._exit(e.code)
         except BaseException:
             self.unregisterTask((event, task, parent))
 
@@ -943,3 +958,7 @@ class Manager:
         self.root._executing_thread = None
         self.__thread = None
         self.__process = None
+
+        code, self._exit_code = self._exit_code, None
+        if code is not None:
+            raise SystemExit(code)
